@@ -857,8 +857,20 @@ def run_case(ctx):
         # diagonalisable / invertible matrices only show here
         nq = rng.choice([1, 1, 1, 2])
         flavor = NU.FLAVORS[ctx.index % len(NU.FLAVORS)] if rng.random() < 0.8 else None
-        g, d, info = NU.nonunitary_gate(rng, nprng, nq, f"NU{ctx.index}", flavor=flavor)
-        chain = _nu_chain(rng, nq, max_width, max_len, info)
+        if ctx.index % 6 == 5:
+            # three qubits (8 x 8: beyond the sizes for which closed forms are in anybody's head): exact structured
+            # matrices only, short chains built around an inverse / a dagger, within 4 qubits
+            nq = 3
+            flavor = rng.choice(["triangular", "diag", "scaled_perm", "jordan"])
+            g, d, info = NU.nonunitary_gate(rng, nprng, nq, f"NU{ctx.index}", flavor=flavor)
+            core = [("power_int", rng.choice([-1, -1, -2, 2, -3]))]
+            pre = rng.choice([[], [], [("dagger",)], [("power_int", -1)]])
+            post = rng.choice([[], [("dagger",)], [("controlled", 1)], [("power_int", -1)]])
+            chain = pre + core + post
+            ctx.mon.note("nonunitary-three-qubit-base")
+        else:
+            g, d, info = NU.nonunitary_gate(rng, nprng, nq, f"NU{ctx.index}", flavor=flavor)
+            chain = _nu_chain(rng, nq, max_width, max_len, info)
         M0 = GC.to_np(g.matrix)
         nonunitary = not L.is_unitary(M0, 1e-6)
         ctx.describe(f"{d}.{_chain_str(chain)}", nonunitary and _nontrivial(chain))
